@@ -91,9 +91,17 @@ def history_case(args) -> dict:
                 out["steps"].append({"target": str(target.relative_to(proj)) or ".", "long_lived": got, "fresh": fresh_api, "fresh_orch": fresh, "union_ok": union_ok})
             elif r < 0.7 and live:
                 p = rng.choice(live)
-                lang = p.rsplit(".", 1)[1]
+                lang = p.rsplit(".", 1)[1] if "." in p.rsplit("/", 1)[-1] else ""
                 dup = rng.choice([None, 0, 1])
-                text = py_file(rng, 900 + nextver, dup) if lang == "py" else ts_file(rng, 900 + nextver, dup) if lang == "ts" else (proj / p).read_text() + f"\nfn extra_{nextver}() -> i32 {{ {rng.randint(100, 999)} }}\n"
+                if lang == "":
+                    old = (proj / p).read_text()
+                    text = (old.split("\n")[0] + "\n" + py_file(rng, 900 + nextver, dup)) if old.startswith("#!") else old + f"line {nextver}\n"
+                elif lang == "py":
+                    text = py_file(rng, 900 + nextver, dup)
+                elif lang == "ts":
+                    text = ts_file(rng, 900 + nextver, dup)
+                else:
+                    text = (proj / p).read_text() + f"\nfn extra_{nextver}() -> i32 {{ {rng.randint(100, 999)} }}\n"
                 (proj / p).write_text(text)
                 version[p] = nextver
                 out["ops"].append({"op": "write", "p": pid[p], "c": nextver})
@@ -211,7 +219,7 @@ def run(tier: str, seed: int, st: core.ProofStatus) -> core.Result:
                 "under 3 PYTHONHASHSEED values with project-directory and TMPDIR snapshots (sequential/parallel, DRY memory/tempfile). "
                 "Non-trivial history = at least two lint steps whose outputs differ; distinct by op sequence")
     rng = core.sub_rng(seed, PROP, tier)
-    nh, npm, nsp = (40, 16, 6) if tier == "quick" else (1200, 300, 60)
+    nh, npm, nsp = (64, 16, 6) if tier == "quick" else (1200, 300, 60)
     root = core.scratch_dir("c08")
     try:
         hist = core.pmap(history_case, [(i, rng.randrange(1 << 30), str(root)) for i in range(nh)], procs=16)
